@@ -21,6 +21,8 @@ corpus/C02/*.json (minimised programs that once disagreed) run first.
 LEVEL = "proof"
 
 import os
+import shutil
+import tempfile
 
 from lib import common
 from checks.parts import evaldiff
@@ -108,9 +110,9 @@ def run(ctx):
     if not ok:
         ctx.correspondence_broken("ocaml-build", log[-3000:])
         return
-    tmp = os.path.join(ctx.outdir, "corpus_tmp")
-    os.makedirs(tmp, exist_ok=True)
+    tmp = tempfile.mkdtemp(prefix="corpus_", dir=ctx.outdir)
     ncorpus = report_corpus(ctx, nevrun, tmp, CORPUS, "C02")
+    shutil.rmtree(tmp, ignore_errors=True)
     n = 3400 if ctx.tier == "quick" else 54000
     r = evaldiff.run_evaldiff(ctx, evaldiff.ALL_PROFILES, n, ctx.tier, variants=("o",), nevrun=nevrun,
                               shrink_max=2 if ctx.tier == "quick" else 5,
